@@ -450,3 +450,50 @@ theorem writeAt_truthful :
         · rw [List.cons_append, getAt_cons _ c' _ _ (by simp [child, lookup_setKv_self])]; exact hnew
 
 end Pg.C09
+
+namespace Pg.C09
+open T
+open Pg.C08 (Atom Key)
+
+/-! ### bulk operations: all updates are owned by one node -/
+
+/-- The updates of one bulk operation on the container at `recv`. -/
+def ownedUps (recv : Path) (ents : List (Key × Option T × Option T)) : List (Update × Path) :=
+  ents.map fun x => ({ path := recv ++ [x.1], old := x.2.1, new := x.2.2 }, recv)
+
+theorem entriesFor_owned (q recv : Path) (ents : List (Key × Option T × Option T)) :
+    entriesFor q (ownedUps recv ents) =
+      if q <+: recv then ents.map (fun x => ((recv ++ [x.1]).drop q.length, x.2.1, x.2.2)) else [] := by
+  induction ents with
+  | nil => simp [ownedUps, entriesFor]
+  | cons x rest ih =>
+    simp only [ownedUps, entriesFor, List.map_cons, List.filterMap_cons] at ih ⊢
+    by_cases h : q <+: recv
+    · simp only [h, if_true] at ih ⊢
+      rw [ih]
+    · simp only [h, if_false] at ih ⊢
+      exact ih
+
+/-- What the contract demands for a bulk operation, in closed form: every subscribing node on the
+path from the root to the container (the container included) gets one event carrying *all* the
+entries of the operation, relative to itself; every other node gets nothing. -/
+def bulkSpec (r' : T) (recv : Path) (ents : List (Key × Option T × Option T)) : List Event :=
+  (allSubs r' []).filterMap fun s =>
+    if s.1 <+: recv then
+      some { recv := s.2, entries := ents.map (fun x => ((recv ++ [x.1]).drop s.1.length, x.2.1, x.2.2)) }
+    else none
+
+theorem specNotifs_owned (r' : T) (recv : Path) (ents : List (Key × Option T × Option T)) (hne : ents ≠ []) :
+    specNotifs r' (ownedUps recv ents) = bulkSpec r' recv ents := by
+  unfold specNotifs bulkSpec
+  congr 1
+  funext s
+  rw [entriesFor_owned]
+  by_cases h : s.1 <+: recv
+  · simp only [h, if_true]
+    cases ents with
+    | nil => exact absurd rfl hne
+    | cons x rest => simp
+  · simp [h]
+
+end Pg.C09
